@@ -616,6 +616,7 @@ pub mod life {
         if sent { core::mem::forget(tx.try_send(Tag(1))); }
         if closed { let _ = tx.close(); }
         let mut st = ManuallyDrop::new(rx.into_stream());
+        if (p & P18) != 0 { arm_alloc(); }
         if (p & P17) != 0 { assert!(!st.is_terminated(), "C17 shared stream: a fresh stream reports terminated"); }
         let cell = WakeCell::new();
         let waker = ManuallyDrop::new(mk_waker(&cell));
@@ -639,6 +640,10 @@ pub mod life {
             }
             assert!(st.is_terminated() == ended, "C17 shared stream: is_terminated() differs from 'None was yielded'");
         } else { core::mem::forget(r2); }
+        if (p & P18) != 0 {
+            assert!(alloc_events() == 0, "C18 shared stream: poll_next allocated or freed heap memory");
+            disarm_alloc();
+        }
         core::mem::forget(tx);
         let bits = (sent as u32) | ((closed as u32) << 1);
         s.reached(bits);
@@ -703,6 +708,12 @@ pub mod life {
         #[kani::proof]
         #[kani::unwind(4)]
         fn shared_mpmc_min_c17() { let _ = shared_mpmc_min::<NL, _>(&mut KaniSrc, P17); }
+        #[kani::proof]
+        #[kani::unwind(4)]
+        #[kani::stub(alloc::alloc::alloc, crate::verif::common::stub_alloc)]
+        #[kani::stub(alloc::alloc::dealloc, crate::verif::common::stub_dealloc)]
+        #[kani::stub(alloc::alloc::realloc, crate::verif::common::stub_realloc)]
+        fn shared_stream_min_c18() { let _ = shared_stream_min::<NL, _>(&mut KaniSrc, P18); }
         #[kani::proof]
         #[kani::unwind(4)]
         fn shared_stream_min_c17() { let b = shared_stream_min::<NL, _>(&mut KaniSrc, P17); kani::cover!(b == 3, "W shared stream: value buffered and closed"); }
